@@ -1263,13 +1263,8 @@ func init() {
 			}
 			tagOK, digOK := true, true
 			nTag, nDig := 0, 0
-			an.Instrs(fn, func(in ssa.Instruction) {
-				ret, ok := in.(*ssa.Return)
-				if !ok || len(ret.Results) != 2 || !retErrNil(ret) {
-					return
-				}
-				onTag, onDigest := false, false
-				for _, g := range an.GuardingEdges(ret.Block()) {
+			sideOf := func(b *ssa.BasicBlock) (onTag, onDigest bool) {
+				for _, g := range an.GuardingEdges(b) {
 					if call, trueSucc, ok := an.BoolCallTest(g.If()); ok && an.IsMethod(call, "regexp", "Regexp", "MatchString") && an.IsGlobalLoad(call.Call.Args[0], r.TypesPath, "RefTagRE") {
 						if g.Succ == trueSucc {
 							onTag = true
@@ -1278,6 +1273,9 @@ func init() {
 						}
 					}
 				}
+				return
+			}
+			judge := func(ret *ssa.Return, onTag, onDigest bool) {
 				v := ret.Results[0]
 				if u, isLoad := v.(*ssa.UnOp); isLoad && u.Op == token.MUL {
 					// defer-free function: the value is a load of a composite literal or a call result
@@ -1325,8 +1323,110 @@ func init() {
 						digOK = false
 					}
 				}
+			}
+			an.Instrs(fn, func(in ssa.Instruction) {
+				ret, ok := in.(*ssa.Return)
+				if !ok || len(ret.Results) != 2 {
+					return
+				}
+				if retErrNil(ret) {
+					t, d := sideOf(ret.Block())
+					judge(ret, t, d)
+					return
+				}
+				// the whole answer of a step of the package handed on (`return i.getDescByTag(arg)`): judged at the step's own
+				// successful returns, on the side this return is on
+				e0, ok0 := ret.Results[0].(*ssa.Extract)
+				e1, ok1 := ret.Results[1].(*ssa.Extract)
+				if !ok0 || !ok1 || e0.Tuple != e1.Tuple {
+					return
+				}
+				call, isCall := e0.Tuple.(*ssa.Call)
+				if !isCall {
+					return
+				}
+				h := call.Call.StaticCallee()
+				if h == nil || core.FuncPkgPath(h) != r.TypesPath || len(h.Blocks) == 0 {
+					return
+				}
+				t, d := sideOf(ret.Block())
+				an.Instrs(h, func(hin ssa.Instruction) {
+					if hr, isRet := hin.(*ssa.Return); isRet && len(hr.Results) == 2 && retErrNil(hr) {
+						judge(hr, t, d)
+					}
+				})
 			})
 			c.Check(tagOK && nTag > 0, "tag-lookup-returns-annotated-copy", fn.Pos(), "a tag lookup returns Copy() of the annotated index entry (%d return site(s)): %v", nTag, tagOK && nTag > 0)
+			// the digest side searches every descriptor list the index keeps (top-level entries and children of nested indexes)
+			if recv := fn.Signature.Recv(); recv != nil {
+				if st, isSt := an.Deref(recv.Type()).Underlying().(*types.Struct); isSt {
+					for fi := 0; fi < st.NumFields(); fi++ {
+						sl, isSl := st.Field(fi).Type().Underlying().(*types.Slice)
+						if !isSl || !isNamed(sl.Elem(), r.TypesPath, "Descriptor") {
+							continue
+						}
+						// the list is searched on the digest side: there — in the lookup itself or in a method of the index it
+						// calls there — the field is read for more than a nil / length test (indexed or ranged over, put into
+						// a list of lists, handed to a helper)
+						scanned := false
+						onDigestSide := func(b *ssa.BasicBlock) bool {
+							for _, g := range an.GuardingEdges(b) {
+								if call, trueSucc, ok := an.BoolCallTest(g.If()); ok && an.IsMethod(call, "regexp", "Regexp", "MatchString") && g.Succ != trueSucc {
+									return true
+								}
+							}
+							return false
+						}
+						var scanIn func(f *ssa.Function, all bool, depth int)
+						scanIn = func(f *ssa.Function, all bool, depth int) {
+							if f == nil || depth > 2 || scanned {
+								return
+							}
+							for _, b := range f.Blocks {
+								if !all && !onDigestSide(b) {
+									continue
+								}
+								for _, in := range b.Instrs {
+									switch x := in.(type) {
+									case *ssa.UnOp:
+										fa, isFA := x.X.(*ssa.FieldAddr)
+										if x.Op != token.MUL || !isFA || fa.Field != fi || !isNamedType(an.Deref(fa.X.Type()), r.TypesPath, "Index") || x.Referrers() == nil {
+											continue
+										}
+										for _, ref := range *x.Referrers() {
+											switch u := ref.(type) {
+											case *ssa.BinOp, *ssa.DebugRef:
+											case *ssa.Call:
+												if bi, isB := u.Call.Value.(*ssa.Builtin); isB && bi.Name() == "len" {
+													continue
+												}
+												scanned = true
+											default:
+												scanned = true
+											}
+										}
+									case *ssa.Field:
+										// value receiver copied into a register: i.childManifests as a field of the loaded struct
+										if x.Field == fi && isNamedType(x.X.Type(), r.TypesPath, "Index") && x.Referrers() != nil {
+											for _, ref := range *x.Referrers() {
+												if _, isCmp := ref.(*ssa.BinOp); !isCmp {
+													scanned = true
+												}
+											}
+										}
+									case *ssa.Call:
+										if callee := x.Call.StaticCallee(); callee != nil && callee != f && core.FuncPkgPath(callee) == r.TypesPath && callee.Signature.Recv() != nil && isNamedType(callee.Signature.Recv().Type(), r.TypesPath, "Index") {
+											scanIn(callee, true, depth+1)
+										}
+									}
+								}
+							}
+						}
+						scanIn(fn, false, 0)
+						c.Check(scanned, "digest-lookup-scans:"+st.Field(fi).Name(), fn.Pos(), "a digest lookup searches the list %s: %v — otherwise a digest recorded there cannot be fetched or deleted by digest although it is stored", st.Field(fi).Name(), scanned)
+					}
+				}
+			}
 			c.Check(digOK && nDig > 0, "digest-lookup-returns-bare-descriptor", fn.Pos(), "a digest lookup returns a descriptor built without annotations (%d return site(s)): %v — otherwise deleting by digest only removes one tag", nDig, digOK && nDig > 0)
 		}})
 	register(&Rule{ID: "LK-GLOBALS", Floor: 1,
@@ -1409,6 +1509,7 @@ func init() {
 				pos token.Pos
 			}
 			res := map[string]*verdict{}
+			callbacks := map[*ssa.Function]bool{}
 			for _, fn := range c.P.Funcs("internal/cache") {
 				if fn.TypeParams().Len() > 0 && len(fn.TypeArgs()) == 0 {
 					continue
@@ -1425,6 +1526,15 @@ func init() {
 					call, ok := an.Strip(st.Val).(*ssa.Call)
 					if !ok || !an.IsFunc(call, "time", "AfterFunc") {
 						return
+					}
+					if len(call.Call.Args) == 2 {
+						if mc, isMC := an.Strip(call.Call.Args[1]).(*ssa.MakeClosure); isMC {
+							if cb, isFn := mc.Fn.(*ssa.Function); isFn {
+								callbacks[timerCallbackTarget(cb)] = true
+							}
+						} else if cb, isFn := an.Strip(call.Call.Args[1]).(*ssa.Function); isFn {
+							callbacks[timerCallbackTarget(cb)] = true
+						}
 					}
 					for _, g := range an.GuardingEdges(st.Block()) {
 						if x, nilSucc, ok := an.NilTest(g.If()); ok && timerFromField(x) && g.Succ == nilSucc {
@@ -1503,6 +1613,240 @@ func init() {
 					v.bad = bad
 				}
 			}
+			// the function the timer runs: when it is entered the timer in the field has fired. Once it has gone through the
+			// entries, every path to a return re-arms the timer (Reset, or a new timer stored in the field), clears the field,
+			// or has found the field nil — a fired timer left in the field is never re-armed by Set, which arms only on nil
+			for cb := range callbacks {
+				if cb == nil || len(cb.Blocks) == 0 {
+					continue
+				}
+				name := c.P.FuncName(cb)
+				if cb.Origin() != nil {
+					name = c.P.FuncName(cb.Origin())
+				}
+				var scan ssa.Instruction
+				an.Instrs(cb, func(in ssa.Instruction) {
+					if rg, ok := in.(*ssa.Range); ok && scan == nil {
+						if _, isMap := rg.X.Type().Underlying().(*types.Map); isMap {
+							scan = in
+						}
+					}
+				})
+				key := "callback-rearms:" + kn(name)
+				v := res[key]
+				if v == nil {
+					v = &verdict{pos: cb.Pos()}
+					res[key] = v
+				}
+				if scan == nil {
+					continue
+				}
+				// leaks: a return of f is reachable from (b, start) without the field having been re-armed, cleared or found nil
+				// — directly or in a helper of the package every path of which does so.  The walk is path-sensitive: it keeps the
+				// outcome of the comparisons it has passed (the same comparison, or the emptiness of the same map field of the
+				// receiver, tested again — also inside a helper called on the same receiver — has the same outcome until the map
+				// is changed) and resolves a materialised && / || through the predecessor the path came by.
+				type factSet map[string]bool
+				factStr := func(fs factSet) string {
+					ks := make([]string, 0, len(fs))
+					for k, v := range fs {
+						ks = append(ks, fmt.Sprintf("%s=%v", k, v))
+					}
+					sort.Strings(ks)
+					return strings.Join(ks, ";")
+				}
+				recvField := func(f *ssa.Function, v ssa.Value) (string, bool) {
+					ld, ok := an.Strip(v).(*ssa.UnOp)
+					if !ok || ld.Op != token.MUL || len(f.Params) == 0 {
+						return "", false
+					}
+					fa, ok := ld.X.(*ssa.FieldAddr)
+					if !ok || an.Strip(fa.X) != ssa.Value(f.Params[0]) {
+						return "", false
+					}
+					st, ok := an.Deref(fa.X.Type()).Underlying().(*types.Struct)
+					if !ok {
+						return "", false
+					}
+					return st.Field(fa.Field).Name(), true
+				}
+				// factOf: the fact a condition value establishes when it is true (key, value), if it is one the walk tracks
+				factOf := func(f *ssa.Function, cond ssa.Value) (string, bool, bool) {
+					bo, ok := an.Strip(cond).(*ssa.BinOp)
+					if !ok {
+						return "", false, false
+					}
+					x, y, op := bo.X, bo.Y, bo.Op
+					if l := lenOf(y); l != nil && lenOf(x) == nil {
+						x, y = y, x
+						op = flipCmp(op)
+					}
+					if l := lenOf(x); l != nil {
+						if fld, isF := recvField(f, l); isF {
+							if k, isK := an.ConstInt(y); isK {
+								switch {
+								case (op == token.EQL && k == 0) || (op == token.LEQ && k == 0) || (op == token.LSS && k == 1):
+									return "empty:" + fld, true, true
+								case (op == token.NEQ && k == 0) || (op == token.GTR && k == 0) || (op == token.GEQ && k == 1):
+									return "empty:" + fld, false, true
+								}
+							}
+						}
+					}
+					name := func(v ssa.Value) string {
+						if cst, isC := v.(*ssa.Const); isC {
+							return "c" + cst.Name()
+						}
+						return fmt.Sprintf("%p", v)
+					}
+					return "bin:" + bo.Op.String() + ":" + name(an.Strip(bo.X)) + ":" + name(an.Strip(bo.Y)), true, true
+				}
+				memo := map[string]int{} // 1 = settles on all paths, 2 = may leak, 3 = in progress
+				var leaks func(f *ssa.Function, b *ssa.BasicBlock, start int, depth int, facts factSet) token.Pos
+				settles := func(f *ssa.Function, depth int, facts factSet) bool {
+					if f == nil || len(f.Blocks) == 0 || depth > 3 || !strings.HasSuffix(core.FuncPkgPath(f), "/internal/cache") {
+						return false
+					}
+					mk := fmt.Sprintf("%p|%s", f, factStr(facts))
+					switch memo[mk] {
+					case 1:
+						return true
+					case 2, 3:
+						return false
+					}
+					memo[mk] = 3
+					if leaks(f, f.Blocks[0], 0, depth+1, facts) == token.NoPos {
+						memo[mk] = 1
+						return true
+					}
+					memo[mk] = 2
+					return false
+				}
+				leaks = func(f *ssa.Function, b0 *ssa.BasicBlock, start0 int, depth int, facts0 factSet) token.Pos {
+					bad := token.NoPos
+					seen := map[string]bool{}
+					var walk func(b, pred *ssa.BasicBlock, start int, facts factSet)
+					walk = func(b, pred *ssa.BasicBlock, start int, facts factSet) {
+						if bad != token.NoPos {
+							return
+						}
+						for _, in := range b.Instrs[start:] {
+							switch x := in.(type) {
+							case *ssa.Store:
+								if isTimerField(x.Addr) {
+									return
+								}
+							case *ssa.MapUpdate:
+								if fld, ok := recvField(f, x.Map); ok {
+									facts = copyFacts(facts)
+									delete(facts, "empty:"+fld)
+								}
+							case ssa.CallInstruction:
+								if _, isDefer := x.(*ssa.Defer); isDefer {
+									continue
+								}
+								if bi, isB := x.Common().Value.(*ssa.Builtin); isB && bi.Name() == "delete" && len(x.Common().Args) > 0 {
+									if fld, ok := recvField(f, x.Common().Args[0]); ok {
+										facts = copyFacts(facts)
+										delete(facts, "empty:"+fld)
+									}
+									continue
+								}
+								if an.IsMethod(x, "time", "Timer", "Reset") {
+									if recv, _ := an.CallArgs(x); timerFromField(recv) {
+										return
+									}
+								}
+								if callee := x.Common().StaticCallee(); callee != nil && callee != f {
+									cf := factSet{}
+									if len(x.Common().Args) > 0 && len(f.Params) > 0 && an.Strip(x.Common().Args[0]) == ssa.Value(f.Params[0]) && callee.Signature.Recv() != nil {
+										for k, v := range facts {
+											if strings.HasPrefix(k, "empty:") {
+												cf[k] = v
+											}
+										}
+									}
+									if settles(callee, depth, cf) {
+										return
+									}
+								}
+							case *ssa.Return:
+								bad = x.Pos()
+								if bad == token.NoPos {
+									bad = f.Pos()
+								}
+								return
+							}
+						}
+						ifi := an.BlockIf(b)
+						if ifi == nil {
+							for _, sc := range b.Succs {
+								k := fmt.Sprintf("%d<%d|%s", sc.Index, b.Index, factStr(facts))
+								if !seen[k] {
+									seen[k] = true
+									walk(sc, b, 0, facts)
+								}
+							}
+							return
+						}
+						cond, neg := an.CondBase(ifi.Cond)
+						// a materialised && / ||: the value the predecessor the path came by put into the φ
+						for hops := 0; hops < 3; hops++ {
+							ph, isPhi := cond.(*ssa.Phi)
+							if !isPhi || ph.Block() != b || pred == nil {
+								break
+							}
+							found := false
+							for pi, p := range b.Preds {
+								if p == pred {
+									c2, n2 := an.CondBase(ph.Edges[pi])
+									cond, neg = c2, neg != n2
+									found = true
+									break
+								}
+							}
+							if !found {
+								break
+							}
+						}
+						for i, sc := range b.Succs {
+							truth := (i == 0) != neg
+							if cv, isC := an.ConstBool(cond); isC && cv != truth {
+								continue // constant outcome merged in by the φ
+							}
+							if bo, isBo := an.Strip(cond).(*ssa.BinOp); isBo && (bo.Op == token.EQL || bo.Op == token.NEQ) {
+								other := bo.X
+								isNil := an.IsNilConst(bo.Y)
+								if an.IsNilConst(bo.X) {
+									other, isNil = bo.Y, true
+								}
+								if isNil && timerFromField(other) && ((bo.Op == token.EQL) == truth) {
+									continue // the field is nil on this edge: nothing is left in it
+								}
+							}
+							nf := facts
+							if key, val, ok := factOf(f, cond); ok {
+								want := val == truth
+								if cur, has := facts[key]; has && cur != want {
+									continue // contradicts a comparison the path has already passed
+								}
+								nf = copyFacts(facts)
+								nf[key] = want
+							}
+							k := fmt.Sprintf("%d<%d|%s", sc.Index, b.Index, factStr(nf))
+							if !seen[k] {
+								seen[k] = true
+								walk(sc, b, 0, nf)
+							}
+						}
+					}
+					walk(b0, nil, start0, facts0)
+					return bad
+				}
+				if pos := leaks(cb, scan.Block(), an.InstrIndex(scan)+1, 0, map[string]bool{}); pos != token.NoPos && v.bad == "" {
+					v.bad = fmt.Sprintf("%s, which the expiry timer runs, can return at %s after going through the entries without re-arming the timer or clearing the field (the fired timer stays in it)", name, c.P.Pos(pos))
+				}
+			}
 			if !premise {
 				if len(res) > 0 {
 					c.Undecided("premise", token.NoPos, "the cache stops its expiry timer but no arming site guarded by ‘timer field is nil’ was found: the re-arming discipline is not the one this rule knows")
@@ -1520,7 +1864,11 @@ func init() {
 				if res[k].bad != "" {
 					c.Fail(k, res[k].pos, "%s: Set arms a timer only when the field is nil, so no later entry of this cache ever expires (abandoned upload sessions and their temporary files stay)", res[k].bad)
 				} else {
-					c.Pass(k, res[k].pos, "after Stop() the timer field is cleared or re-armed on every path to a return")
+					if strings.HasPrefix(k, "callback-rearms:") {
+						c.Pass(k, res[k].pos, "the function the expiry timer runs leaves the field re-armed, cleared or nil on every path after it went through the entries")
+					} else {
+						c.Pass(k, res[k].pos, "after Stop() the timer field is cleared or re-armed on every path to a return")
+					}
 				}
 			}
 		}})
@@ -2429,6 +2777,63 @@ func passSince(c *core.Ctx, fn *ssa.Function, h *ssa.BasicBlock) {
 			}
 		}
 	}
+	// the carried time is the time of the tick that started the previous pass — a value that existed before that pass ran.
+	// A time taken after the pass returned (time.Now() behind the call) moves the window past everything that was
+	// modified while the pass was running: a repository written to after the pass had visited it is older than every
+	// later threshold and is never collected again.
+	siteInstr, _ := site.(ssa.Instruction)
+	for k, p := range fn.Params {
+		if !isTime(p.Type()) || fresh[p] || k >= len(site.Common().Args) || siteInstr == nil {
+			continue
+		}
+		var carried []ssa.Value
+		switch x := an.Strip(site.Common().Args[k]).(type) {
+		case *ssa.Phi:
+			for i, pred := range x.Block().Preds {
+				if x.Block().Dominates(pred) {
+					carried = append(carried, x.Edges[i])
+				}
+			}
+		case *ssa.UnOp:
+			if al, isAl := x.X.(*ssa.Alloc); isAl && x.Op == token.MUL && al.Referrers() != nil {
+				for _, ref := range *al.Referrers() {
+					if st, isSt := ref.(*ssa.Store); isSt && st.Addr == ssa.Value(al) && loopHeader(st.Block()) != nil {
+						carried = append(carried, st.Val)
+					}
+				}
+			}
+		}
+		if len(carried) == 0 {
+			continue
+		}
+		late := token.NoPos
+		var visit func(v ssa.Value, depth int)
+		visit = func(v ssa.Value, depth int) {
+			if depth > 6 || late != token.NoPos {
+				return
+			}
+			switch y := an.Strip(v).(type) {
+			case *ssa.Phi:
+				for _, e := range y.Edges {
+					visit(e, depth+1)
+				}
+			case *ssa.Call:
+				if isTime(y.Type()) && !dominatesInstr(y, siteInstr) {
+					// a method of time.Time applied to an earlier time (prev.Add(…)) is as old as its receiver
+					if sc := y.Call.StaticCallee(); sc != nil && sc.Signature.Recv() != nil && isTime(sc.Signature.Recv().Type()) && len(y.Call.Args) > 0 {
+						visit(y.Call.Args[0], depth+1)
+						return
+					}
+					late = y.Pos()
+				}
+			}
+		}
+		for _, v := range carried {
+			visit(v, 0)
+		}
+		wkey := "window:" + kn(c.P.FuncName(site.Parent()))
+		c.Check(late == token.NoPos, wkey, site.Pos(), "the time carried from one pass to the next in %s was taken before the pass ran (the tick that started it): %v%s", c.P.FuncName(site.Parent()), late == token.NoPos, map[bool]string{true: "", false: fmt.Sprintf(" (taken at %s, after the pass returned) — whatever is modified while a pass runs, after the pass has visited that repository, is older than every later threshold: its garbage is never collected", c.P.Pos(late))}[late == token.NoPos])
+	}
 	judged, bad := false, false
 	var where token.Pos
 	an.Calls(fn, func(call ssa.CallInstruction) {
@@ -2463,4 +2868,36 @@ func passSince(c *core.Ctx, fn *ssa.Function, h *ssa.BasicBlock) {
 	} else {
 		c.Pass(key, fn.Pos(), "the ‘not modified since’ threshold of the pass is derived from the time of the tick before, not from the tick just received")
 	}
+}
+
+// timerCallbackTarget: the function a timer callback value runs — the method behind a bound-method wrapper, the
+// function called by a one-call closure, or the function itself.
+func timerCallbackTarget(cb *ssa.Function) *ssa.Function {
+	if cb == nil {
+		return nil
+	}
+	var calls []*ssa.Function
+	n := 0
+	an.Instrs(cb, func(in ssa.Instruction) {
+		if _, isDbg := in.(*ssa.DebugRef); !isDbg {
+			n++
+		}
+		if call, ok := in.(ssa.CallInstruction); ok {
+			if f := call.Common().StaticCallee(); f != nil {
+				calls = append(calls, f)
+			}
+		}
+	})
+	if len(calls) == 1 && n <= 6 && len(cb.Blocks) == 1 {
+		return calls[0]
+	}
+	return cb
+}
+
+func copyFacts(m map[string]bool) map[string]bool {
+	out := make(map[string]bool, len(m)+1)
+	for k, v := range m {
+		out[k] = v
+	}
+	return out
 }
